@@ -528,6 +528,7 @@ func (eng *Engine) VerifyFunc(fn *ssa.Function, c *Contract) (res *FuncResult) {
 	fr := x.pushFrame(st, fn, args, bind, 0)
 	fr.contract = c
 	x.paths = 1
+	x.replay = eng.replayInfo(st, fn, args)
 	// preconditions
 	e := x.envFor(st, fr, c)
 	for _, cl := range c.ByKind("requires") {
@@ -557,6 +558,22 @@ func (eng *Engine) VerifyFunc(fn *ssa.Function, c *Contract) (res *FuncResult) {
 		res.Returns++
 		rt := fn.Signature.Results()
 		tvs := resultTVs(rv, rt)
+		firstQ := len(x.queries)
+		defer func() {
+			// counterexamples of the obligations of this return can be re-run on the real function
+			if x.replay == nil {
+				return
+			}
+			ri := x.replay.withResults(st2, tvs)
+			if ri == nil {
+				return
+			}
+			for _, q := range x.queries[firstQ:] {
+				if !q.ExpectSat && !strings.HasSuffix(q.Name, "/frame") {
+					q.Replay = ri
+				}
+			}
+		}()
 		// hints: proved at the return point, then available to the ensures
 		for _, cl := range c.ByKind("hint") {
 			g := x.evalClauseBool(st2, fr2, cl, tvs, 1)
